@@ -6,19 +6,6 @@ EXPLANATION = ('Bounded model checking (cbmc, SAT) of the real translation units
                'plus the buffer-contract assertions idone<=ilen, odone<=olen.')
 ASSUMPTIONS = ['io_ratio in [2^-12, 2^12]', 'out is non-NULL unless in is NULL too (documented use)',
                'input function returns at most the requested length']
-OPS = {0: 'push', 1: 'flush', 2: 'pull', 4: 'query'}
-
-def step(op, it, ot, kind, ch, cap=3):
-    return Obl(name='api_%s_i%d_o%d_k%d_ch%d' % (OPS[op], it, ot, kind, ch), src='api_step.c',
-               extra_srcs=['src/data-io.c', 'x87_glue.c'],
-               defs=['-DVF_OP=%d' % op, '-DVF_ITYPE=%d' % it, '-DVF_OTYPE=%d' % ot, '-DVF_KIND=%d' % kind,
-                     '-DVF_CH=%d' % ch, '-DVF_CAP=%d' % cap, '-DAE_FIXED_BUFS=%d' % (cap + 1), '-DVF_DATAIO_MEMCPY', '-DVF_X87_ABSTRACT'] ,
-               ccflags=X87, unwind=cap + 2, unwindset=rint_blocks(1) + ['soxr_output.0:14', 'fixed_alloc.0:%d' % (cap * 16 + 2), 'check_canaries.0:%d' % (cap * 16 + 2), 'check_canaries.1:8', 'vf_word_memcpy.0:%d' % (cap * 2 + 2)], timeout=300,
-               desc='one %s call, itype %d otype %d (bit 2 = split), engine kind %d, %d channel(s)' % (OPS[op], it, ot, kind, ch),
-               bounds='frames<=%d per call, input-fn calls<=4, engine rounds<=6' % cap,
-               stubs=[AE_STUB, X87_STUB, ENV_STUB],
-               funcs=['soxr.c:soxr_process', 'soxr.c:soxr_output', 'soxr.c:soxr_input', 'soxr.c:soxr_output_no_callback'])
-
 def obligations(tier):
     obls = []
     if tier == 'quick':
@@ -29,9 +16,9 @@ def obligations(tier):
         for (it, ot) in pairs:
             for kind in (2, 3):
                 for ch in (1, 2):
-                    obls.append(step(op, it, ot, kind, ch))
+                    obls.append(api_step(op, it, ot, kind, ch))
     for op in (1, 4):
         for (it, ot) in [(0, 0), (5, 6), (3, 7), (6, 1)]:
             for kind in (2, 3, 8):
-                obls.append(step(op, it, ot, kind, 2))
+                obls.append(api_step(op, it, ot, kind, 2))
     return obls
